@@ -16,6 +16,12 @@ def suite_cls(s):
 def good_keys(rng, tier):
     r = O.BLS_R
     ks = [1, 2, r - 2, r - 1, rng.randrange(1, r)]
+    # scalars with a special bit pattern: exact powers of two (a single set bit — wide enough that float-based bit counting is
+    # inexact), 2^k - 1 (all ones), 2^k + 1
+    k = rng.randrange(49, 254)
+    ks += [1 << 254, 1 << k, (1 << rng.randrange(49, 255)) - 1]
+    if tier == "thorough":
+        ks += [1 << j for j in range(48, 255, 7)] + [(1 << j) + 1 for j in range(50, 255, 29)]
     step = 64 if tier == "quick" else 8
     b = 3
     while (1 << b) < r:
